@@ -199,18 +199,30 @@ def sar_loop_spec(header, ref_is_array):
         m = to_real(fr.locals["max_volt"])
         inv = {}
         D, S = {}, {}
+        # UNIT of the auxiliary state (reference and residual): the kernel may work in volts (first reference = max_volt / 2, unit 1) or in
+        # any other unit (e.g. normalised to the range: first reference 0.5, unit 1 / max_volt) -- the contract is about the CODES, the
+        # unit is read off the first reference at loop entry (ghost) and must be positive
+        unit = ex.st.ghost.get("SAR_UNIT")
+        if unit is None:
+            r0 = to_real(ex.st.cell(fr.locals["ref_2d"]).elem(G1)) if ref_is_array else to_real(fr.locals["ref"])
+            unit = z3.RealVal(1) if not ex.st.feasible(r0 != m / 2) else r0 / (m / 2)
+            ex.st.ghost["SAR_UNIT"] = unit
+        one = z3.is_rational_value(unit) and unit.as_fraction() == 1
+        sc = (lambda t: t) if one else (lambda t: unit * t)
+        if not one:
+            inv["unit_positive"] = unit > 0
         for name, g in (("g1", G1), ("g2", G2)):
             v = SIG(*g)
             D[name], S[name] = to_real(d.elem(g)), to_real(s_.elem(g))
             inv[f"functional.data.{name}"] = D[name] == sarD(v, m, B, k)
-            inv[f"functional.residual.{name}"] = S[name] == sarS(v, m, B, k)
+            inv[f"functional.residual.{name}"] = S[name] == sc(sarS(v, m, B, k))
             inv[f"range.{name}"] = z3.And(D[name] >= 0, D[name] + z3.ToReal(pow2(B - k)) <= z3.ToReal(pow2(B)))
         if ref_is_array:
             r = ex.st.cell(fr.locals["ref_2d"])
             for name, g in (("g1", G1), ("g2", G2)):
-                inv[f"functional.ref.{name}"] = to_real(r.elem(g)) == refS(m, k)
+                inv[f"functional.ref.{name}"] = to_real(r.elem(g)) == sc(refS(m, k))
         else:
-            inv["functional.ref"] = to_real(fr.locals["ref"]) == refS(m, k)
+            inv["functional.ref"] = to_real(fr.locals["ref"]) == sc(refS(m, k))
         inv["monotone"] = z3.Implies(SIG(*G1) <= SIG(*G2), z3.And(
             D["g1"] <= D["g2"],
             z3.Implies(D["g1"] == D["g2"], S["g1"] <= S["g2"]),
@@ -310,6 +322,11 @@ for bits in (8, 12):
     if VIOLATED: break
 """, "expect": "apply_sar_adc_with_noise with zero strengths and noises gives the codes of apply_sar_adc (binary64, all transitions of 8 and 12 bit converters, five range maxima: BOUNDED)"}
 STANDIN = {r"\bsar": SAR_TRANSITIONS_REPLAY}
+# "its noisy variant with zero noise reproduces it exactly" is a statement about binary64 results: over the reals it is PROVED (both kernels
+# compute the same specification function, whatever unit they keep the reference in); two kernels that round differently at a transition
+# are only visible natively. The transitions scenario therefore runs in EVERY tier as a bounded audit (never counted as proved).
+AUDITS = {"sar.zero_noise_binary64_transitions": lambda w: dict(SAR_TRANSITIONS_REPLAY(w), bound="every code transition -1 ulp / exact / +1 ulp of 8- and 12-bit converters x range maxima 10, 3.3, 5, 1.8, 2.5 V",
+                                                               function="pyxel/models/readout_electronics/sar_adc.py::apply_sar_adc")}
 
 
 @unit("C16", "sar_noise")
